@@ -38,7 +38,7 @@ REQUIRED_MONITORS = ["increasing", "inside_limits", "inside_support", "weights_f
 REQUIRED_BUCKETS = {
     "quick": ["type:gaussian", "type:lognormal", "type:schulz", "type:boltzmann", "type:uniform",
               "type:rectangle", "cut:none", "cut:lower", "cut:upper", "cut:both", "relative", "absolute",
-              "degenerate:zero_width", "degenerate:npts<2", "layer:get_mesh", "layer:sasview", "layer:shared-name-sequence", "layer:set_dispersion-shared-object", "layer:one-setting-changed-sequence", "layer:vector-element", "layer:fewer-than-two-points-with-width", "layer:set_dispersion-zero-width-after-width", "cut:symmetric", "layer:composite-kernel-1d", "layer:composite-kernel-2d", "layer:structure-factor-after-product-built",
+              "degenerate:zero_width", "degenerate:npts<2", "layer:get_mesh", "layer:sasview", "layer:shared-name-sequence", "layer:set_dispersion-shared-object", "layer:one-setting-changed-sequence", "layer:vector-element", "layer:fewer-than-two-points-with-width", "layer:set_dispersion-zero-width-after-width", "cut:symmetric", "layer:composite-kernel-1d", "layer:composite-kernel-2d", "layer:view-angle-beyond-a-whole-turn", "layer:structure-factor-after-product-built",
               "partype:volume", "partype:orientation"],
 }
 REQUIRED_BUCKETS["thorough"] = REQUIRED_BUCKETS["quick"]
@@ -466,6 +466,23 @@ def run_layer(case, rec):
             finally:
                 _state["current"] = None
             ok2 = (len(pts2) == 1 and float(pts2[0]) == centre and float(wts2[0]) == 1.0)
+            if p.type == "orientation":
+                # a view angle entered beyond a whole turn (400 degrees): the jitter distribution is still the single point 0
+                for far in (400.0, -365.0):
+                    m1.setParam(p.name, far)
+                    _state["current"] = rec
+                    try:
+                        _v, ptsf, wtsf = m1._get_weights(p)
+                        meshf = direct_model.get_mesh(info, dict(pars1, **{p.name: far}), dim="2d")[idx1]
+                    finally:
+                        _state["current"] = None
+                    okf = (len(ptsf) == 1 and float(ptsf[0]) == 0.0 and float(wtsf[0]) == 1.0
+                           and len(meshf[1]) == 1 and float(meshf[1][0]) == 0.0 and float(meshf[2][0]) == 1.0)
+                    rec.check("degenerate_single_point", okf,
+                              {"model": name, "parameter": p.name, "via": "SasviewModel._get_weights / get_mesh", "view_angle": far,
+                               "npts": npts1, "points": [ptsf, meshf[1]], "weights": [wtsf, meshf[2]]})
+                m1.setParam(p.name, value)
+                rec.bucket("layer:view-angle-beyond-a-whole-turn")
             rec.check("degenerate_single_point", ok2,
                       {"model": name, "parameter": p.name, "type": p.type, "via": "SasviewModel._get_weights", "npts": npts1,
                        "width": width, "value": value, "points": pts2, "weights": wts2, "expected_point": centre})
